@@ -203,7 +203,7 @@ func runC13(c *fw.Ctx) {
 		c.Count("exhaustive_spaces_completed", 1)
 	}
 	// ---- (a3) random long numerals ----
-	n := c.N(3000, 200000)
+	n := c.N(10000, 200000)
 	for i := 0; i < n; i++ {
 		id := "long/" + itoa(i)
 		if !c.Want(60_000_000+i, id) {
@@ -245,7 +245,7 @@ func runC13(c *fw.Ctx) {
 		c.Distinct("long|" + text)
 	}
 	// ---- (b) round trips ----
-	n = c.N(6000, 300000)
+	n = c.N(30000, 600000)
 	for i := 0; i < n; i++ {
 		id := "rt/" + itoa(i)
 		if !c.Want(70_000_000+i, id) {
